@@ -694,9 +694,18 @@ static void make_alphabet(void) {
     /* sources that are Tuples holding ONE OBJECT TWICE (iterating such a Tuple is the known defect D16, but len/get work,
        and assign / new copy through len+get): a a, a a b, a b a.  Run in a forked child under a 3 s limit, in the empty
        state only (the calls do not depend on A) */
-    if (!probe) for (int w = 0; w < 3; w++) for (int pat = 0; pat < 3; pat++) {
+    if (!probe) for (int w = 0; w < 3; w++) for (int pat = 0; pat < 4; pat++) {
       static const char* wn[] = { "assign(fresh,T)", "assign(non-empty,T)", "new(kind,Int,T...)" };
-      static const char* pn[] = { "(a,a)", "(a,a,b)", "(a,b,a)" };
+      static const char* pn[] = { "(a,a)", "(a,a,b)", "(a,b,a)", "(a,b,a,c)" };
+      addop(T_DUPTUPLE, w, pat, 0, "%s T=%s same object twice", wn[w], pn[pat]);
+    }
+  }
+  if (kindA == K_TUPLE && !picky && !probe) {
+    /* the same sources into a Tuple: assign onto a fresh / a non-empty heap Tuple and copy(); the result must hold the
+       very same objects at every position (judged through len and get; iterating such a Tuple is D16) */
+    for (int w = 0; w < 3; w++) for (int pat = 0; pat < 4; pat++) {
+      static const char* wn[] = { "assign(fresh-tuple,T)", "assign(non-empty-tuple,T)", "copy(T)" };
+      static const char* pn[] = { "(a,a)", "(a,a,b)", "(a,b,a)", "(a,b,a,c)" };
       addop(T_DUPTUPLE, w, pat, 0, "%s T=%s same object twice", wn[w], pn[pat]);
     }
   }
@@ -997,18 +1006,33 @@ static var assign_into_other(int kind, int t, int f) {
 static struct { int w, pat; } dupargs;
 static void duptuple_child(void* arg) {
   (void)arg;
-  var a = new_raw(Int, $I(0)), b = new_raw(Int, $I(1));
-  static const int pv[3][3] = { {0,0,-1}, {0,0,1}, {0,1,0} };
-  const int* p = pv[dupargs.pat]; int n = p[2] < 0 ? 2 : 3;
-  var it[3]; for (int i = 0; i < n; i++) it[i] = p[i] ? b : a;
+  var a = new_raw(Int, $I(0)), b = new_raw(Int, $I(1)), c2 = new_raw(Int, $I(2));
+  static const int pv[4][5] = { {0,0,-1,-1,2}, {0,0,1,-1,3}, {0,1,0,-1,3}, {0,1,0,2,4} };
+  const int* p = pv[dupargs.pat]; int n = p[4];
+  var it[4]; for (int i = 0; i < n; i++) it[i] = p[i] == 2 ? c2 : p[i] ? b : a;
   var y;
+  if (kindA == K_TUPLE) {
+    /* Tuple target: assign onto a fresh / a non-empty heap Tuple, or copy(); judged through len and get only */
+    var t = n == 2 ? new_raw(Tuple, it[0], it[1]) : n == 3 ? new_raw(Tuple, it[0], it[1], it[2]) : new_raw(Tuple, it[0], it[1], it[2], it[3]);
+    if (dupargs.w == 2) y = copy(t);
+    else {
+      y = new_raw(Tuple);
+      if (dupargs.w == 1) { push(y, c2); push(y, b); push(y, b); push(y, a); push(y, c2); }
+      assign(y, t);
+    }
+    if (len(y) != (size_t)n) _exit(3);
+    for (int i = 0; i < n; i++) if (get(y, $I(i)) != it[i]) _exit(4);
+    for (int i = 0; i < n; i++) if (get(y, $I(-(int64_t)(n - i))) != it[i]) _exit(4);
+    _exit(0);
+  }
   if (dupargs.w == 2) {
     y = n == 2 ? (kindA == K_ARRAY ? (var)new_raw(Array, Int, it[0], it[1]) : (var)new_raw(List, Int, it[0], it[1]))
-               : (kindA == K_ARRAY ? (var)new_raw(Array, Int, it[0], it[1], it[2]) : (var)new_raw(List, Int, it[0], it[1], it[2]));
+      : n == 3 ? (kindA == K_ARRAY ? (var)new_raw(Array, Int, it[0], it[1], it[2]) : (var)new_raw(List, Int, it[0], it[1], it[2]))
+               : (kindA == K_ARRAY ? (var)new_raw(Array, Int, it[0], it[1], it[2], it[3]) : (var)new_raw(List, Int, it[0], it[1], it[2], it[3]));
   } else {
-    var t = n == 2 ? new_raw(Tuple, it[0], it[1]) : new_raw(Tuple, it[0], it[1], it[2]);
+    var t = n == 2 ? new_raw(Tuple, it[0], it[1]) : n == 3 ? new_raw(Tuple, it[0], it[1], it[2]) : new_raw(Tuple, it[0], it[1], it[2], it[3]);
     y = kindA == K_ARRAY ? (var)new_raw(Array, Int) : (var)new_raw(List, Int);
-    if (dupargs.w == 1) { push(y, $I(2)); push(y, $I(2)); push(y, $I(1)); push(y, $I(0)); }
+    if (dupargs.w == 1) { push(y, $I(2)); push(y, $I(2)); push(y, $I(1)); push(y, $I(0)); push(y, $I(1)); }
     assign(y, t);
   }
   if (len(y) != (size_t)n) _exit(3);
@@ -1290,7 +1314,8 @@ static int apply_op(int op) {
 
   case T_DUPTUPLE: {
     if (n != 0 || MB.exists) return VF_SKIP;
-    static const char* wl[] = { "assign-into-fresh", "assign-into-nonempty", "new" };
+    static const char* wl_[] = { "assign-into-fresh", "assign-into-nonempty", "new" }, * wlt[] = { "assign-into-fresh", "assign-into-nonempty", "copy" };
+    const char** wl = kindA == K_TUPLE ? wlt : wl_;
     setop("%s/from-tuple-with-repeated-object", wl[o->a]);
     dupargs.w = o->a; dupargs.pat = o->b;
     struct vf_child c = vf_fork_run(duptuple_child, NULL, 3);
@@ -1606,26 +1631,39 @@ static const char* sl_family; static long sl_idx;
 static var sl_obj[SLMAX];                         /* Tuple: the objects handed in, by input position */
 static int sl_only_n = -1;
 
+/* comparator 2: gt, but every call first sorts another small Array the other way round (a comparison function is free to
+** use the library: rows compared by their largest member, a scoreboard kept sorted, ...) */
+static uint64_t nest_bad;
+static bool nest_gt(var a, var b) {
+  var s3 = new_raw(Array, Int, $I(2), $I(0), $I(1));
+  sort(s3);
+  if (c_int(get(s3, $I(0))) != 0 || c_int(get(s3, $I(1))) != 1 || c_int(get(s3, $I(2))) != 2) nest_bad++;
+  del_raw(s3);
+  return gt(a, b);
+}
+
 static int ptrcmp(const void* a, const void* b) { uintptr_t x = (uintptr_t)*(var*)a, y = (uintptr_t)*(var*)b; return x < y ? -1 : x > y; }
 
 static void sl_run_one(void) {
   int n = sl_n;
   char lb[160];
-  #define SLL(sym) (snprintf(lb, sizeof lb, "%s/int/sortladder/%s/%s/%s/%s", KN[kindA], sl_cmp ? "sort_by-gt" : "sort", sl_family, n >= 10 ? "n>=10" : "n<10", sym), lb)
-  vf_set_cur("sortladder kind=%s n=%d family=%s index=%ld cmp=%s", KN[kindA], n, sl_family, sl_idx, sl_cmp ? "gt" : "lt");
+  #define SLL(sym) (snprintf(lb, sizeof lb, "%s/int/sortladder/%s/%s/%s/%s", KN[kindA], sl_cmp == 2 ? "sort_by-gt-that-sorts" : sl_cmp ? "sort_by-gt" : "sort", sl_family, n >= 10 ? "n>=10" : "n<10", sym), lb)
+  vf_set_cur("sortladder kind=%s n=%d family=%s index=%ld cmp=%s", KN[kindA], n, sl_family, sl_idx, sl_cmp == 2 ? "gt-that-sorts" : sl_cmp ? "gt" : "lt");
   var x = mk(kindA);
   for (int i = 0; i < n; i++) {
     if (kindA == K_TUPLE) { sl_obj[i] = fresh_distinct(sl_in[i]); push(x, sl_obj[i]); }
     else push(x, $I(sl_in[i]));
   }
   var e;
-  if (sl_cmp) e = VF_CATCH(sort_by(x, gt)); else e = VF_CATCH(sort(x));
+  nest_bad = 0;
+  if (sl_cmp == 2) e = VF_CATCH(sort_by(x, nest_gt)); else if (sl_cmp) e = VF_CATCH(sort_by(x, gt)); else e = VF_CATCH(sort(x));
   vf.executions++; vf.transitions++;
   int sorted_already = 1;
   for (int i = 0; i + 1 < n; i++) if (sl_cmp ? sl_in[i] < sl_in[i + 1] : sl_in[i] > sl_in[i + 1]) sorted_already = 0;
   if (!sorted_already) vf.nontrivial++;
   int bad = 0;
   if (e) { vf_violation(SLL("raises"), NULL, "sort raised %s", vf_exc_name(e)); bad = 1; }
+  if (!bad && nest_bad) { vf_violation(SLL("inner-sort-wrong"), NULL, "the Array sorted inside the comparison function came out unsorted %" PRIu64 " times", nest_bad); bad = 1; }
   if (!bad && len(x) != (size_t)n) { vf_violation(SLL("len-changed"), NULL, "len %d -> %zu", n, len(x)); bad = 1; }
   static int64_t out[SLMAX]; static var outp[SLMAX], inp[SLMAX];
   if (!bad) {
@@ -1660,7 +1698,7 @@ static void sl_run_one(void) {
 static void sl_emit(const char* family) {
   sl_family = family;
   vf.states++;                              /* distinct inputs */
-  for (sl_cmp = 0; sl_cmp < 2; sl_cmp++) sl_run_one();
+  for (sl_cmp = 0; sl_cmp < 3; sl_cmp++) { if (sl_cmp == 2 && sl_n > 24) continue; sl_run_one(); }
   sl_idx++;
 }
 
